@@ -484,6 +484,10 @@ class WorkerComms:
         """
         self._results_received[worker_id] = 0
 
+        # The added counter has to start at zero as well. A worker process gets a fresh copy of it, but worker threads
+        # share this list with the worker they replace, which would otherwise wait for results that will never arrive
+        self._results_added[worker_id] = 0
+
     def wait_for_all_results_received(self, worker_id: int) -> None:
         """
         Wait for the main process to receive all the results from a specific worker
